@@ -398,9 +398,15 @@ TSearch(e) ==
   LET nq == SearchNQ(e)
       badq == {k \in 1..nq : ~SearchOkAt(e, k)}
       first == CHOOSE k \in badq : \A k2 \in badq : k <= k2
-  IN IF Len(e.res) # nq THEN Tool("shape", "search")
-     ELSE IF ~SearchSorted(e) THEN Tool("domain", "search: range not sorted / not finite")
+  IN IF ~SearchSorted(e) THEN Tool("domain", "search: range not sorted / not finite")
      ELSE IF e.exh = 1 /\ ~ExhDomain(e) THEN Tool("domain", "search: not a member of the exhaustive universe")
+     \* the call in flight when the harness process died (signal) or was stopped by its watchdog: the library
+     \* did not return on operands inside the domain
+     ELSE IF "crash" \in DOMAIN e THEN
+            FailS("C20.search.noreturn",
+                  (IF e.crash = 2 THEN "no return within 20 s" ELSE "signal " \o ToString(e.signal)) \o " at query #" \o ToString(e.done + 1),
+                  "returns an iterator")
+     ELSE IF Len(e.res) # nq THEN Tool("shape", "search")
      ELSE IF badq = {} THEN <<>>
      ELSE FailS("C20.search.case" \o ToString(SearchCaseOf(e, first)),
                 "query #" \o ToString(first) \o " returned position " \o ToString(e.res[first])
@@ -444,7 +450,7 @@ Stratum(e) ==
 
 \* additional coverage cells: the documented case of every query of a search event
 SearchCaseCells(e) ==
-  IF e.op = "search" /\ Len(e.res) = SearchNQ(e) /\ SearchSorted(e)
+  IF e.op = "search" /\ "crash" \notin DOMAIN e /\ Len(e.res) = SearchNQ(e) /\ SearchSorted(e)
   THEN [c \in 1..4 |-> <<"search.case" \o ToString(c) \o "|" \o e.var, Cardinality({k \in 1..SearchNQ(e) : SearchCaseOf(e, k) = c})>>]
   ELSE <<>>
 RECURSIVE AddCells(_, _, _)
